@@ -571,6 +571,8 @@ func (rw *rewriter) rewriteSelect(x *ast.SelectStmt) ast.Stmt {
 		idx++
 	}
 	sw.Tag = method(selID, "Wait", ast.NewIdent(hasDefault))
+	// a select whose clauses all terminate is itself terminating; the switch is only with a default
+	sw.Body.List = append(sw.Body.List, &ast.CaseClause{Body: []ast.Stmt{&ast.ExprStmt{X: call(ast.NewIdent("panic"), &ast.BasicLit{Kind: token.STRING, Value: `"verifmc: impossible select index"`})}}})
 	stmts = append(stmts, sw)
 	return &ast.BlockStmt{List: stmts}
 }
